@@ -24,6 +24,7 @@ import (
 	"errors"
 	"net/http"
 	"net/http/httputil"
+	"strconv"
 	"strings"
 	"time"
 
@@ -88,6 +89,11 @@ func (rt *RoundTripper) cacheResponse(req *http.Request, resp *http.Response) {
 		}
 
 		expires = time.Now().Add(rt.DefaultCacheTTL)
+	} else {
+		// the expiration time is calculated based on the freshness lifetime of the response
+		// only. The time the response has already spent in other caches, respectively in transit
+		// reduces the time, it can be considered fresh.
+		expires = expires.Add(-currentAge(resp))
 	}
 
 	ttl := time.Until(expires)
@@ -104,6 +110,22 @@ func (rt *RoundTripper) cacheResponse(req *http.Request, resp *http.Response) {
 	ctx := req.Context()
 	cch := cache.Ctx(ctx)
 	cch.Set(ctx, cacheKey(req), respDump, ttl) //nolint:errcheck
+}
+
+// currentAge calculates the age of the response as defined in RFC 7234, section 4.2.3
+// (without taking the response delay into account).
+func currentAge(resp *http.Response) time.Duration {
+	var age time.Duration
+
+	if date, err := http.ParseTime(resp.Header.Get("Date")); err == nil {
+		age = max(0, time.Since(date))
+	}
+
+	if value, err := strconv.Atoi(strings.TrimSpace(resp.Header.Get("Age"))); err == nil && value > 0 {
+		age = max(age, time.Duration(value)*time.Second)
+	}
+
+	return age
 }
 
 func cacheKey(req *http.Request) string {
